@@ -139,6 +139,20 @@ def run(ctx):
         alts.append(Case(recs, t, fmt=fmt, intext=render_clustal(rng, rows), tag="clustal"))
         alts.append(Case(recs, t, fmt=fmt, intext=render_msf(rng, rows), tag="msf"))
         alts.append(Case(recs, t, fmt=fmt, intext=render_fasta(rng, [(n, s) for n, s in recs]), tag="fasta other width/blank lines"))
+        if i % 4 == 1:
+            # very long physical lines: one unwrapped block of a mostly-gaps alignment whose width sits on the usual stdio buffer sizes
+            Wd = rng.choice([4095, 4096, 8190, 8191, 8192, 8193, 9000, 16384, 70000])
+            lrows = []
+            for n_, s_ in recs:
+                pos = sorted(rng.sample(range(Wd), min(len(s_), Wd)))
+                row = ["-"] * Wd
+                for q, ch in zip(pos, s_):
+                    row[q] = ch
+                lrows.append((n_, "".join(row)))
+            if all(len(s_) <= Wd for _, s_ in recs):
+                alts.append(Case(recs, t, fmt=fmt, intext=render_clustal(rng, lrows, width=Wd), tag="clustal, one block of %d columns" % Wd))
+                alts.append(Case(recs, t, fmt=fmt, intext=render_msf(rng, lrows, width=Wd), tag="msf, one block of %d columns" % Wd))
+                alts.append(Case(recs, t, fmt=fmt, intext=render_fasta(rng, lrows, width=Wd), tag="aligned fasta, lines of %d columns" % Wd))
         if nseq >= 2:
             k = rng.randint(2, min(5, nseq))
             cuts = sorted(rng.sample(range(1, nseq), k - 1)) if nseq > k - 1 and k > 1 else []
